@@ -329,6 +329,16 @@ def apply(net, E, tr):
         perm = tr[2]
         if c.covm is not None: c.covm = _perm_cov(c.covm, perm, [o.dim() for o in c.obs])
         c.obs = [c.obs[i] for i in perm]
+    elif k == "swf":                                # one distance of a station cluster: ends swapped and moved to the first position
+        c = net.clusters[_find_cluster(net, tr[1])]
+        idx = [i for i, o in enumerate(c.obs) if o.uid == (tr[1], tr[2])][0]
+        perm = [idx] + [i for i in range(len(c.obs)) if i != idx]
+        if c.covm is not None: c.covm = _perm_cov(c.covm, perm, [o.dim() for o in c.obs])
+        c.obs = [c.obs[i] for i in perm]
+        o = c.obs[0]
+        assert o.kind in ("distance", "s-distance")
+        o.frm, o.to = o.to, o.frm
+        E.swapped ^= {o.uid}
     elif k == "id":                                 # rename all points
         m = idmap(tr[1], net.tmpl)
         cur = {p.id: m[_base_id(E, p.id)] for p in net.points}
@@ -538,6 +548,8 @@ def single_words(tmpl, groups=None):
                  for k in range(len(TURNS))]
     W["turn0"] = [(("turn0", c.uid, o.uid[1], e),) for c in net.clusters for o in c.obs if o.kind == "direction"
                   for e in EPS0_OF.get(tmpl, [])]
+    W["swf"] = [(("swf", c.uid, o.uid[1]),) for c in net.clusters if c.frm is not None and any(x.kind == "direction" for x in c.obs)
+                for o in c.obs if o.kind == "distance" and o.frm == c.frm]
     W["pp"] = [(("pp", p),) for p in perms_of(len(net.points))]
     W["pc"] = [(("pc", p),) for p in perms_of(len(net.clusters))]
     W["po"] = [(("po", c.uid, p),) for c in net.clusters for p in perms_of(len(c.obs))]
@@ -557,7 +569,7 @@ def single_words(tmpl, groups=None):
     if tmpl == "netcy":                 # only there to expose the frame handling of x-y covariances
         W = {k: W[k] for k in ("tr", "ax")}
     if tmpl == "netw":                  # only there to cover the wrap-arounds of reading / orientation / bearing
-        W = {k: W[k] for k in ("tr", "turn", "turn0", "ax")}
+        W = {k: W[k] for k in ("tr", "turn", "turn0", "swf", "ax")}
     W = {k: v for k, v in W.items() if v}
     if groups is not None:
         W = {k: v for k, v in W.items() if k in groups}
@@ -598,7 +610,12 @@ def pair_words(tmpl):
         R += [("turn0", cu, 0, e) for cu in (0, 1) for e in (1, 2, 3, 4)]
         return [(a, b) for a in R for b in R if a != b]
     R = reduced_menu(tmpl)
-    return [(a, b) for a in R for b in R if a != b]
+    P = [(a, b) for a in R for b in R if a != b]
+    if tmpl == "net2d":     # all distances with swapped ends x every order of the observations inside every cluster
+        nd = sum(1 for c in base_net(tmpl, 0).clusters for o in c.obs if o.kind == "distance")
+        sw = ("swap", (1 << nd) - 1)
+        P += [(sw, w[0]) for w in single_words(tmpl)["po"] if (sw, w[0]) not in P]
+    return P
 
 
 def kind_of(word):
